@@ -249,6 +249,91 @@ fn fd_deviations(rep: &mut Report) {
     }
 }
 
+/// Hard faults on the real file descriptor: the k-th write(2) of a history of small records (each goes out in one
+/// write at its flush) fails once with ENOSPC or EIO.  An append that *returned Ok* must have its record whole in the
+/// file when it returns; records whose append returned an error may be there or not (they were not acknowledged),
+/// but the file is always the old content followed by whole records in write order.
+fn hard_failures(rep: &mut Report) {
+    use crate::engine::fsfault::{self, Plan};
+    let sizes = [10usize, 1, 700, 40, 300];
+    let mut runs = 0u64;
+    for chunks in [1usize, 3] {
+        let w = FWorld { append: true, pre: Some("old\n"), nested: false, chunks, sizes: vec![] };
+        // returns (verdict, number of counted writes)
+        let run = |fail: Vec<(usize, i32)>| -> (Result<(), (String, String)>, usize) {
+            let sb = Sandbox::new();
+            std::fs::write(sb.path(w.rel()), "old\n").unwrap();
+            fsfault::begin(&crate::engine::sandbox::scratch_root(), Plan { fail, snapshots: false, kinds: vec!["write"], short: vec![] });
+            fsfault::arm();
+            let app = match catch_panic(|| w.build(&sb)) {
+                Ok(Ok(a)) => a,
+                Ok(Err(e)) => {
+                    fsfault::end();
+                    return (Err(("build-failed".into(), e)), 0);
+                }
+                Err(p) => {
+                    fsfault::end();
+                    return (Err((format!("panic-build:{}", panic_site(&p)), p)), 0);
+                }
+            };
+            let mut verdict = Ok(());
+            let mut texts: Vec<(String, bool)> = vec![]; // (record, acknowledged)
+            for (i, size) in sizes.iter().enumerate() {
+                let text = payload(&format!("r{}", i), *size);
+                let r = catch_panic(|| app.append(&Record::builder().level(Level::Info).args(format_args!("{}", text)).build()));
+                let acked = match r {
+                    Err(p) => {
+                        verdict = Err((format!("hard-fault:panic-append:{}", panic_site(&p)), p));
+                        break;
+                    }
+                    Ok(Err(_)) => false,
+                    Ok(Ok(())) => true,
+                };
+                texts.push((text, acked));
+                let got = std::fs::read(sb.path(w.rel())).unwrap_or_default();
+                // the file must be "old\n" + whole records in order, containing every acknowledged one
+                let mut pos = 0usize;
+                let mut ok = got.starts_with(b"old\n");
+                if ok {
+                    pos = 4;
+                    for (t, a) in &texts {
+                        if got[pos..].starts_with(t.as_bytes()) {
+                            pos += t.len();
+                        } else if *a {
+                            verdict = Err(("hard-fault:acknowledged-record-not-visible".into(), format!("append #{} returned Ok but the file does not hold the record at its place: file {:?}", i, show_bytes(&got))));
+                            ok = false;
+                            break;
+                        }
+                    }
+                }
+                if verdict.is_err() {
+                    break;
+                }
+                if !ok || pos != got.len() {
+                    verdict = Err(("hard-fault:file-not-whole-records".into(), format!("after append #{}: file {:?} is not the old content followed by whole records in order", i, show_bytes(&got))));
+                    break;
+                }
+            }
+            let n = fsfault::end().map_or(0, |(c, _)| c.len());
+            (verdict, n)
+        };
+        let (r0, n) = run(vec![]);
+        if let Err((s, d)) = r0 {
+            rep.violation(s, d, json!({"kind": "hard-fault"}));
+            continue;
+        }
+        for k in 0..n {
+            for errno in [libc::ENOSPC, libc::EIO] {
+                runs += 1;
+                if let (Err((s, d)), _) = run(vec![(k, errno)]) {
+                    rep.violation(s, format!("write #{} fails once with errno {} (chunks={}): {}", k, errno, chunks, d), json!({"kind": "hard-fault", "k": k, "errno": errno}));
+                }
+            }
+        }
+    }
+    rep.add("hard_fault_runs", runs);
+}
+
 pub fn fworlds(tier: Tier) -> Vec<FWorld> {
     let mut v = vec![];
     for append in [true, false] {
@@ -393,6 +478,7 @@ pub fn run(ctx: &Ctx) -> Report {
         }
     }
     fd_deviations(&mut rep);
+    hard_failures(&mut rep);
     rep.set("max_depth", depth as u64);
     rep.sample(json!({"world": "truncate pre='old\\n' nested chunks=3", "path": [{"append": 1025}, "reopen", {"append": 0}, {"append": 2500}]}));
     for (h, bound) in sharnesses(ctx.tier) {
@@ -419,6 +505,14 @@ pub fn run(ctx: &Ctx) -> Report {
 }
 
 pub fn replay(case: &Value) -> Result<(), String> {
+    if case["kind"] == "hard-fault" {
+        let mut rep = Report::new("model_checking");
+        hard_failures(&mut rep);
+        return match rep.violations().first() {
+            Some(v) => Err(format!("{}: {}", v.signature, v.detail)),
+            None => Ok(()),
+        };
+    }
     if case["kind"] == "fd-deviation" {
         let mut rep = Report::new("model_checking");
         fd_deviations(&mut rep);
